@@ -27,9 +27,10 @@ RULE = ("values are sequences over the token alphabet of the property: text 'a',
         "%%, lone % (core, 7 tokens) plus %2$S, %3$S, %1$d, width/precision forms (%5d, %.2f, %*.*s, "
         "%1$5.2f, %.x), #1, #2, ';' and three texts that fuse with a preceding % ('d', '1', '$'). "
         "PROPS-CHECK-printf: EVERY pair of core sequences up to 3+3 tokens (160 000 pairs; thorough: "
-        "also a seeded sample of 900 000 pairs out of the 7.8 million of length <= 4+4, i.e. "
-        "SUBSAMPLED, and every pair over the full alphabet up to 2+2), a seeded sample of pairs over "
-        "the full alphabet up to 2+2 (quick), and seeded random pairs of up to 8 tokens where the "
+        "also a seeded sample of 3 000 000 pairs out of the 7.8 million of length <= 4+4, i.e. the "
+        "4+4 enumeration is SUBSAMPLED (about 38 %), and every pair over the full alphabet up to 2+2), "
+        "a seeded sample of pairs over the full alphabet up to 2+2 (quick), and seeded random pairs of "
+        "up to 8 tokens where the "
         "localized value is a mutation of the reference (trailing arguments dropped, ordered "
         "arguments permuted, text/%% inserted, a type changed, an argument inserted). "
         "PROPS-CHECK-plural: pairs over {a, #1, #2, ';', '#', %S} up to 3+3 tokens (quick: seeded "
@@ -505,24 +506,25 @@ def suite_printf(chk, model):
     core3 = list(sequences(CORE, 3))
     full2 = list(sequences(FULL, 2))
     pool = Pool(core3 + full2 + (list(sequences(CORE, 4)) if chk.thorough else []))
-    cases = []
-    for r in core3:
-        for l in core3:
-            cases.append((r, l))
-    if chk.thorough:
-        core4 = list(sequences(CORE, 4))
-        for _ in range(900000):
-            cases.append((rng.choice(core4), rng.choice(core4)))
-        for r in full2:
-            for l in full2:
-                cases.append((r, l))
-    else:
-        for _ in range(30000):
-            cases.append((rng.choice(full2), rng.choice(full2)))
     locs = locales_of_table()
-    full = [(r, l, pool.ent[r], pool.ent[l], locs[i % len(locs)] if i % 5 else None)
-            for i, (r, l) in enumerate(cases)]
-    run_pairs(chk, model, "PROPS-CHECK-printf", full, make_printf_oracle(chk, "PROPS-CHECK-printf"))
+
+    def with_entities(pairs):
+        return [(r, l, pool.ent[r], pool.ent[l], locs[i % len(locs)] if i % 5 else None)
+                for i, (r, l) in enumerate(pairs)]
+    cases = [(r, l) for r in core3 for l in core3]
+    if chk.thorough:
+        cases += [(r, l) for r in full2 for l in full2]
+    else:
+        cases += [(rng.choice(full2), rng.choice(full2)) for _ in range(30000)]
+    run_pairs(chk, model, "PROPS-CHECK-printf", with_entities(cases),
+              make_printf_oracle(chk, "PROPS-CHECK-printf"))
+    if chk.thorough:
+        # a seeded sample of the 7.8 million pairs of core sequences up to 4+4 tokens, in chunks
+        core4 = list(sequences(CORE, 4))
+        for part in range(10):
+            cases = [(rng.choice(core4), rng.choice(core4)) for _ in range(300000)]
+            run_pairs(chk, model, f"PROPS-CHECK-printf-4+4-sample[{part}]", with_entities(cases),
+                      make_printf_oracle(chk, "PROPS-CHECK-printf-4+4-sample"))
     # random longer values, the localized one a mutation of the reference
     pairs = []
     for _ in range(chk.n(12000, 150000)):
@@ -667,8 +669,37 @@ def suite_escape(chk, model):
     run_pairs(chk, model, "PROPS-CHECK-escape", cases, oracle)
 
 
+def suite_corpus(chk, model):
+    """hand-written cases of corpus/C06 (run first)"""
+    import glob
+    import os
+    cases = []
+    for path in sorted(glob.glob(os.path.join(common.VERIF, "corpus", "C06", "*.json"))):
+        c = json.load(open(path))
+        rt = tuple(tuple(t) for t in c["ref"])
+        lt = tuple(tuple(t) for t in c["l10n"])
+        key = c.get("key", "k")
+        ref = parse_entities([(key, render(rt), c.get("comment"))])[0]
+        l10n = parse_entities([(key, render(lt), c.get("comment"))])[0]
+        cases.append((rt, lt, ref, l10n, c.get("locale")))
+    if not cases:
+        return
+
+    def oracle(rt, lt, re_, le, loc, res, fs, report=None):
+        report = report or chk.fail
+        plural = re_.pre_comment is not None and "Localization_and_Plurals" in re_.pre_comment.all \
+            and re_.key != "pluralRule"
+        exp = expected_plural(rt, lt, nforms(loc)) if plural else expected_printf(rt, lt)
+        okay = short(fs) == exp if plural else verdict_matches(exp, short(fs))
+        if res[0] != 0 or not okay:
+            report("corpus", case_dict("CORPUS", rt, lt, re_, le, loc),
+                   {"got": [list(map(str, f)) for f in fs] if res[0] == 0 else res, "expected": exp})
+    run_pairs(chk, model, "CORPUS", cases, oracle)
+
+
 def run(chk, runner_ok):
     model = Model("C06") if runner_ok else None
+    suite_corpus(chk, model)
     if runner_ok:
         rxsuite.run_rx(chk, groups=["c06"], per_regex=chk.n(60, 400))
     suite_difflib(chk, model)
